@@ -184,7 +184,16 @@ class C18(Property):
         "operations: whole-element set(), set_flat(), member set(), append/insert/del; direct attribute assignment (.value = / .u =) is not modelled",
         "no tz-aware or bytes inputs (as C04)",
     ]
-    rule = "see generate()"
+    rule = ("operation histories of length 1-6 on one derived element, observed after every operation. 35% DateYYYYMMDD (anonymous or named): "
+            "set(date | datetime | valid/mutated/transliterated/padded date text | None | garbage | other natives), member set() with in-range, "
+            "boundary (0, -1, 13, 29-32, 100, 10000, 12345, True) and unadaptable values, set_flat with exact, prefix-sharing and unknown keys. "
+            "35% JoinedString: 8 separator configurations (static ',', ', ', '::', ' '; regex \\s*,\\s* with ', ' and ','; character classes), prune "
+            "on/off, String(strip on/off)/Integer/Boolean members; set(text | list with None/0/False members | non-iterable), member set, append, "
+            "del, set_flat; 25% of histories use hostile member texts (containing the separator, padded). 15% MultiValue (Integer/String/"
+            "Boolean/Date members): set, member set, append, insert(0), del, set_flat with repeated/empty/foreign keys. 15% Ref in "
+            "Dict{sub: Dict{t}, o, r: Ref('../sub/t')} with writable ignore/True/False: target set, container set (replaces the member), Ref "
+            "read, Ref set. Exhaustive: compose over a 12x9x10 grid of member values. non-trivial = history completes and a derived value "
+            "was produced (date composed or >2 steps; >=1 member; >=1 Ref read)")
     quick_n = 30000
     thorough_n = 200000
 
@@ -216,6 +225,10 @@ class C18(Property):
              "ops": [{"op": "set", "x": {"i": "list", "v": [leaf("a , b")]}}]},
             {"sub": "joined", "name": "j", "cfg": {"sep": ", ", "splitter": "commaws", "prune": True, "member": K_string(True)},
              "ops": [{"op": "set", "x": leaf("a  ,  b,c,d")}, {"op": "append", "x": S.py_to_nat("")}, {"op": "del", "i": 0}]},
+            # fixed 09fc190: JoinedString.set(None) / set(non-iterable) no longer raise
+            {"sub": "joined", "name": "j", "cfg": j_default,
+             "ops": [{"op": "set", "x": leaf("a,b")}, {"op": "set", "x": leaf(None)}, {"op": "append", "x": S.py_to_nat("z")},
+                     {"op": "set", "x": leaf(7)}]},
             {"sub": "multi", "name": "m", "kind": K_int(True), "prune": True,
              "ops": [{"op": "set", "x": {"i": "list", "v": [leaf("3"), leaf("x")]}}, {"op": "insertfront", "x": S.py_to_nat("zz")},
                      {"op": "del", "i": 0}, {"op": "setflat", "pairs": [["m", "1"], ["m", ""], ["m", "2"], ["z", "9"]]}]},
